@@ -45,7 +45,10 @@ def main():
         print("refusing: /repo working tree is not clean")
         return 2
     for pid in ids:
+        only = os.environ.get("SEED_ONLY", "")
         for patch in sorted(glob.glob(os.path.join(ROOT, "seeded", pid, "patch*.diff"))):
+            if only and not any(os.path.basename(patch) == "patch%s.diff" % k for k in only.split(",")):
+                continue
             key = pid + "/" + os.path.basename(patch)
             rc, out = sh(["git", "-C", REPO, "apply", patch])
             if rc != 0:
